@@ -633,6 +633,35 @@ def analyse_construct(prog, F, W, fn):
             ff = ex.formula(c, reach_leaf)
             if ff is not None and ex.f_atoms(ff) == ['reach']:
                 f = ff if pol else ex.f_not(ff)
+        # every drop site (record as non-spanner edge) is reached only with a positive verdict of the hop test of this iteration: dropping an edge
+        # without having found a short path breaks the stretch clause (k = 1 included, where only the edge itself would do)
+        for dp in [x for x in pushes if loop.is_ancestor_of(x)]:
+            whatdrop = 'an edge is recorded as dropped only after the bounded BFS reported its endpoints within the hop bound'
+            pcd = ex.path_condition(cfg, dp, reach_leaf)
+            atoms_d = ex.f_atoms(pcd)
+            if 'reach' not in atoms_d:
+                onodes = [o_ for o_ in ex.opaque_nodes(fn, pcd) if loop.body is not None and loop.body.is_ancestor_of(o_)]
+                F.add('R15b', dp, fn, whatdrop, 'violation',
+                      'this drop is reached without the hop test%s: the dropped edge need not have a path of at most 2k-1 retained edges' % (
+                          (' (under `%s`)' % onodes[0].text(40)) if onodes else ''), key='R15b|%s|drop-without-test' % fn.g)
+                continue
+            others_d = [a_ for a_ in atoms_d if a_ != 'reach']
+            import itertools as _it
+            witness = None
+            for vals in _it.product((False, True), repeat=min(len(others_d), 10)):
+                e_ = dict(zip(others_d, vals))
+                e_['reach'] = False
+                if ex.f_eval(pcd, e_):
+                    witness = e_
+                    break
+            if witness is not None:
+                culprit = [a_ for a_ in others_d if isinstance(a_, tuple) and a_[0] == 'opaque' and loop.body is not None and loop.body.is_ancestor_of(fn.nodes[a_[1]])]
+                F.add('R15b', dp, fn, whatdrop, 'violation',
+                      'the drop is also reached when the hop test answered "not reachable"%s: the dropped edge then has no path of at most 2k-1 retained edges '
+                      '(for k = 1 every such shortcut is wrong)' % ((' (depends on `%s`)' % fn.nodes[culprit[0][1]].text(40)) if culprit else ''),
+                      key='R15b|%s|drop-despite-unreachable' % fn.g)
+            else:
+                F.add('R15b', dp, fn, whatdrop, 'ok', 'reached only with a positive verdict')
         if stale and any(src for (_d, _rhs, src) in stale):
             d, rhs, src = [x for x in stale if x[2]][0]
             F.add('R15b', ae, fn, whatp, 'violation',
